@@ -87,7 +87,13 @@ class Report:
         wall = time.time() - self.t0
         paths = []
         os.makedirs(os.path.join(REPLAYS, self.prop), exist_ok=True)
-        for i, v in enumerate(self.violations[:20]):
+        # write one replay per distinct key first, then fill up to 20 files
+        seen, first, later = set(), [], []
+        for v in self.violations:
+            (later if str(v["key"]) in seen else first).append(v)
+            seen.add(str(v["key"]))
+        self.violations = first + later
+        for i, v in enumerate(self.violations[:max(20, min(len(first), 60))]):
             path = os.path.join(REPLAYS, self.prop, "violation_%s_%d_%d.json" % (self.tier, self.seed, i))
             with open(path, "w") as f:
                 json.dump({"property": self.prop, "what": v["what"], "key": v["key"], "replay": v["replay"]},
